@@ -7,7 +7,7 @@ import threading
 from concurrent.futures import ThreadPoolExecutor
 from pathlib import Path
 
-from vlib.core import write_cfg, count_lines, CheckerError, NCPU
+from vlib.core import write_cfg, count_lines, CheckerError, NCPU, REPO
 
 LEVEL = "model_checking"
 META = {
@@ -20,7 +20,7 @@ META = {
                   "put each label on 0/1/2/15/16/17/62/63/64 bytes and the total on 250..256 bytes, is emitted with the verdicts the grammar "
                   "predicts and replayed (>=3 concretisations each) on the three validators: nil-ness, dynamic error type *AddrError, "
                   "Addr == input, and the hierarchy on the real results. Seeded random/mutated inputs are judged by the same TLA+ operators "
-                  "from abstract(idna.ToASCII(s)).",
+                  "from abstract(idna.ToASCII(s)). No hidden state: NamesState.tla proves 'every call returns Grammar(kind, argument)' for a stateless and an exact per-validator memo design and refutes it for a memo compared with case folding (U+212A/U+017F look-alike of the name accepted just before, at the 63/253 limits), a memo shared between the validators (lenient then strict on one string) and an unsynchronised memo; the harness replays those histories: every input through all validators strict->lenient and lenient->strict, a sequential second pass over the shuffled inputs in random validator order with k/K->U+212A, s/S->U+017F and ASCII case-flip look-alikes validated right after (and right before) the ASCII name, each judged by idna.ToASCII + grammar, and goroutines validating their own names under -race.",
     "level_note": "Uniformity hypothesis: bytes of one class (letter, digit, '-', '_', '.', other) are treated alike; idna.ToASCII is the "
                   "trusted reference named by the property. Exhaustive only up to the stated length / label-count bounds.",
 }
@@ -51,7 +51,7 @@ def par_tlc(ctx, jobs, parallel=None):
     def one(j):
         w = j.get("workers", share)
         return ctx.tlc(j["dir"], j["module"], j["cfg"], workers=w, label=j["label"],
-                       timeout=j.get("timeout", 1500), count=False,
+                       timeout=j.get("timeout", 1500), count=False, expect_ok=j.get("expect_ok", True),
                        env={"JAVA_TOOL_OPTIONS": "-Xss64m -Xmx%s -XX:ParallelGCThreads=%d"
                             % (os.environ.get("VERIF_TLC_HEAP") or "%dm" % j.get("heap_mb", 5000), max(2, w))})
 
@@ -130,6 +130,66 @@ def judge_trace(ctx, spec_dir, module, cfg, trace_name, trace_path, what, chunks
     return n
 
 
+def state_jobs(ctx, d, module, tag, designs, consts):
+    """'No hidden state' model (NamesState.tla / IPTextState.tla): one TLC job per
+    memo design; designs maps name -> True (TLC must prove NoHiddenState) or
+    False (TLC must refute it)."""
+    ds = clone_dir(d, tag + "_state")
+    jobs = []
+    for design, holds in designs.items():
+        cfg = "State_%s.cfg" % design
+        write_cfg(ds / cfg, "Spec", dict(consts, Design='"%s"' % design),
+                  invariants=["NoHiddenState", "InputsAsIntended"], properties=["ResultsStable"])
+        jobs.append({"dir": ds, "module": module, "cfg": cfg, "label": "no-hidden-state:" + design, "workers": 1,
+                     "heap_mb": 1500, "expect_ok": holds})
+    return jobs
+
+
+def check_refuted(ctx, jobs, results):
+    """The memo designs that TLC has to refute must have been refuted."""
+    refuted = []
+    for j, r in zip(jobs, results):
+        if j.get("expect_ok", True):
+            continue
+        if r.violated != "NoHiddenState":
+            raise CheckerError("TLC did not refute the %s design (expected NoHiddenState violated, got rc=%d violated=%s):\n%s"
+                               % (j["label"], r.rc, r.violated, "\n".join(r.out.splitlines()[-30:])))
+        refuted.append(j["label"].split(":")[1])
+    ctx.extra["memo_designs_refuted_by_tlc"] = refuted
+
+
+def race_phase(ctx, prop, args, what):
+    """Un-instrumented goroutines under the race detector: wrong verdicts come
+    back as mismatches of the harness, data races from the detector's log."""
+    out = ctx.scratch / "stress.res"
+    p = ctx.vh([prop, "stress", out] + list(args), race=True, timeout=1800, fatal_key="concurrent " + what)
+    if out.exists() and p.returncode == 0:
+        s = ctx.collect(out)
+        ctx.evaluations += s["stress_calls"]
+        ctx.extra["concurrent_phase"] = {"goroutines": args[0], "rounds": args[1], "units": s["stress_units"],
+                                         "calls": s["stress_calls"]}
+    golibs, other = ctx.race_reports()
+    if other and not golibs:
+        raise CheckerError("race detector reported a race in the harness only:\n" + other[0][:3000])
+    for rep in golibs:
+        frames = [ln.strip() for ln in rep.splitlines() if str(REPO) + "/" in ln and ".go:" in ln]
+        where = " | ".join(sorted(set("/".join(f.split(" ")[0].split("/")[-2:]) for f in frames))[:4])
+        ctx.mismatch("DATA RACE in concurrent %s: %s" % (what, where),
+                     "the Go race detector reported a data race with a golibs frame while goroutines validated their own "
+                     "inputs (the validators must not share state)", rep[:6000])
+    ctx.extra["race_reports_with_golibs_frames"] = len(golibs)
+
+
+NAMES_DESIGNS = {"none": True, "exact": True, "fold": False, "shared": False, "unsync": False}
+
+
+def names_state_jobs(ctx, d, q, tag, kinds='{"host", "srv", "dom"}'):
+    return state_jobs(ctx, d, "NamesState", tag, NAMES_DESIGNS,
+                      {"Procs": "{1, 2}", "MaxCalls": 2, "Kinds": kinds,
+                       "Inputs": '{"k63", "kelvin63", "srvish", "svc"}' if q else
+                                 '{"k63", "K63", "kelvin63", "k64", "srvish", "svc", "s253", "longs253"}'})
+
+
 def names_jobs(ctx, d, q, tag, small=False):
     """The three generator runs of NamesGen.tla (each in its own directory)."""
     base = {"Alphabet": ALPHABET, "MaxLen": 0, "Shapes": "<- ShapesQuick", "Lens": "{1}", "MaxLabels": 0,
@@ -183,7 +243,11 @@ def run(ctx):
     write_cfg(dm / "run.cfg", "Spec", {"Alphabet": ALPHABET, "MaxLen": 6 if q else 7},
               invariants=["TypeOK", "HierInv", "LabelHierInv", "SanityInv", "NotationInv", "ScanAgrees", "LabelInv"])
     jobs = [{"dir": dm, "module": "NamesMC", "cfg": "run.cfg", "label": "names-mc"}] + names_jobs(ctx, d, q, "names")
-    par_tlc(ctx, jobs)
+    # "no hidden state": proved for a stateless and an exact per-validator memo design, refuted for a
+    # case-folding memo, a memo shared between the validators and an unsynchronised memo.
+    sjobs = names_state_jobs(ctx, d, q, "names")
+    results = par_tlc(ctx, jobs + sjobs, parallel=5)
+    check_refuted(ctx, sjobs, results[len(jobs):])
 
     # 3. replay on the real validators.
     total = {}
@@ -219,6 +283,10 @@ def run(ctx):
     ctx.extra["trace_inexpressible_skipped"] = s["inexpressible_skipped"]
     ctx.extra["trace_toascii_failed"] = s["toascii_failed"]
     ctx.extra["trace_non_ascii_inputs"] = s["non_ascii_inputs"]
+    ctx.extra["history_calls"] = total.get("history_calls", 0) + s.get("history_calls", 0)
+
+    # 5. S: the validators from several goroutines, un-instrumented, under the race detector.
+    race_phase(ctx, "c03", (6, 30) if q else (12, 400), "ValidateHostname / ValidateSRVDomainName / ValidateDomainName")
 
     # shortest failing inputs first (the orchestrator prints the first 20)
     ctx.mismatches.sort(key=lambda m: (len(m["key"]), m["key"]))
